@@ -27,6 +27,16 @@ ReadByte(items, i) ==
   ELSE IF items[i] = WB THEN [k |-> "wb", b |-> 0, i |-> i + 1]
   ELSE [k |-> "oth", b |-> 0, i |-> i + 1]
 
+\* read_byte on an embedded-hal 0.2 serial source (util.rs:244-292): no Interrupted, no end of input - an exhausted
+\* schedule keeps answering nb::Error::WouldBlock
+RECURSIVE ReadByteEh(_, _)
+ReadByteEh(items, i) ==
+  IF i > Len(items) THEN [k |-> "wbx", b |-> 0, i |-> i]                 \* would-block of the exhausted source
+  ELSE IF items[i] < 256 THEN [k |-> "byte", b |-> items[i], i |-> i + 1]
+  ELSE IF items[i] = INT THEN ReadByteEh(items, i + 1)
+  ELSE IF items[i] = WB THEN [k |-> "wb", b |-> 0, i |-> i + 1]
+  ELSE [k |-> "oth", b |-> 0, i |-> i + 1]
+
 BytesBefore(items, i) == Len(SelectSeq(Take(items, i - 1), LAMBDA x : x < 256))
 
 \* outcome of a decoder step as an event at byte position pos
@@ -41,16 +51,19 @@ EvOfOut(pos, o) ==
 (* DecoderReader::read (decoder_reader.rs:66-86): state [d, i]; returns    *)
 (* [d, i, ev].                                                             *)
 (***************************************************************************)
-RECURSIVE RdRead(_, _, _)
-RdRead(d, items, i) ==
-  LET r == ReadByte(items, i) pos == BytesBefore(items, r.i) IN
+RECURSIVE RdReadS(_, _, _, _)
+RdReadS(src, d, items, i) ==
+  LET r == IF src = "eh" THEN ReadByteEh(items, i) ELSE ReadByte(items, i) pos == BytesBefore(items, r.i) IN
   CASE r.k = "byte" ->
          LET s == Step(d, r.b) IN
-         IF s.out.k = "none" THEN RdRead(s.d, items, r.i)
-         ELSE [d |-> s.d, i |-> r.i, ev |-> EvOfOut(pos, s.out)]
-    [] r.k = "wb"  -> [d |-> d, i |-> r.i, ev |-> <<pos, 9, 1, 0>>]                       \* decoder state kept
-    [] r.k = "eof" -> [d |-> ResetD(d), i |-> r.i, ev |-> <<pos, 9, 0, ResetCount(d)>>]
-    [] OTHER       -> [d |-> ResetD(d), i |-> r.i, ev |-> <<pos, 9, 2, ResetCount(d)>>]
+         IF s.out.k = "none" THEN RdReadS(src, s.d, items, r.i)
+         ELSE [d |-> s.d, i |-> r.i, ev |-> EvOfOut(pos, s.out), x |-> FALSE]
+    [] r.k = "wb"  -> [d |-> d, i |-> r.i, ev |-> <<pos, 9, 1, 0>>, x |-> FALSE]                       \* decoder state kept
+    [] r.k = "wbx" -> [d |-> d, i |-> r.i, ev |-> <<pos, 9, 1, 0>>, x |-> TRUE]
+    [] r.k = "eof" -> [d |-> ResetD(d), i |-> r.i, ev |-> <<pos, 9, 0, ResetCount(d)>>, x |-> FALSE]
+    [] OTHER       -> [d |-> ResetD(d), i |-> r.i, ev |-> <<pos, 9, 2, ResetCount(d)>>, x |-> FALSE]
+
+RdRead(d, items, i) == RdReadS("io", d, items, i)
 
 \* DecoderReader::next (decoder_reader.rs:101-106): end of input with nothing pending is None
 RdNext(d, items, i) ==
@@ -62,6 +75,14 @@ RdReadNb(d, items, i) ==
   LET r == RdRead(d, items, i) IN IF r.ev[2] = 9 /\ r.ev[3] = 1 THEN [r EXCEPT !.ev = <<r.ev[1], 13>>] ELSE r
 RdNextNb(d, items, i) ==
   LET r == RdNext(d, items, i) IN IF r.ev[2] = 9 /\ r.ev[3] = 1 THEN [r EXCEPT !.ev = <<r.ev[1], 13>>] ELSE r
+
+NbMap(r) == IF r.ev[2] = 9 /\ r.ev[3] = 1 THEN [r EXCEPT !.ev = <<r.ev[1], 13>>] ELSE r
+NextMap(r) == IF r.ev[2] = 9 /\ r.ev[3] = 0 /\ r.ev[4] = 0 THEN [r EXCEPT !.ev = <<r.ev[1], 10>>] ELSE r
+CallS(src, api, d, items, i) ==
+  CASE api = 0 -> NextMap(RdReadS(src, d, items, i))
+    [] api = 1 -> RdReadS(src, d, items, i)
+    [] api = 2 -> NbMap(NextMap(RdReadS(src, d, items, i)))
+    [] OTHER   -> NbMap(RdReadS(src, d, items, i))
 
 Call(api, d, items, i) ==
   CASE api = 0 -> RdNext(d, items, i)
